@@ -4,6 +4,7 @@ package main
 
 import (
 	"fmt"
+	"sync"
 	"go/ast"
 	"go/parser"
 	"go/token"
@@ -81,10 +82,14 @@ type ContractSet struct {
 	nLines    int
 }
 
+var ctMu sync.Mutex
+
 func (cs *ContractSet) lookup(P *Program, fn *ssa.Function) *FuncContract {
 	if cs == nil {
 		return nil
 	}
+	ctMu.Lock()
+	defer ctMu.Unlock()
 	if ct, ok := cs.merged[fn]; ok {
 		return ct
 	}
